@@ -6,6 +6,7 @@ import (
 	"fmt"
 	"go/types"
 	"math"
+	"strconv"
 	"strings"
 
 	"golang.org/x/tools/go/ssa"
@@ -390,23 +391,50 @@ func buildIntrinsics() map[string]intrinsic {
 	}
 	m["github.com/q191201771/naza/pkg/nazaerrors.Wrap"] = func(ex *Exec, fn *ssa.Function, a []Value) Value { return a[0] }
 	m["github.com/q191201771/naza/pkg/nazamd5.Md5"] = func(ex *Exec, fn *ssa.Function, a []Value) Value {
+		// MD5 as a collision-free function: concrete input is hashed natively; symbolic input gets an
+		// uninterpreted digest (32 lowercase hex characters) constrained, against every digest taken earlier on
+		// this path, by  inputs equal <=> digests equal  (the standard cryptographic abstraction).
 		bs := ex.bytesOf(a[0].(Slice))
+		var out []*Term
+		concrete := true
 		raw := make([]byte, len(bs))
 		for i, b := range bs {
 			if b.Op != OConst {
-				// uninterpreted digest of symbolic data: 32 arbitrary lowercase hex characters
-				out := ex.freshBytes("md5", 32)
-				for _, o := range out {
-					lo := ex.st.And(ex.st.Cmp(OUle, ex.st.Const(8, '0'), o), ex.st.Cmp(OUle, o, ex.st.Const(8, '9')))
-					hi := ex.st.And(ex.st.Cmp(OUle, ex.st.Const(8, 'a'), o), ex.st.Cmp(OUle, o, ex.st.Const(8, 'f')))
-					ex.assume(ex.st.Or(lo, hi))
-				}
-				return Str{B: out}
+				concrete = false
+				break
 			}
 			raw[i] = byte(b.Val)
 		}
-		sum := md5.Sum(raw)
-		return ex.mkStr(hex.EncodeToString(sum[:]))
+		if concrete {
+			sum := md5.Sum(raw)
+			out = ex.mkStr(hex.EncodeToString(sum[:])).B
+		} else {
+			out = ex.freshBytes("md5", 32)
+			for _, o := range out {
+				lo := ex.st.And(ex.st.Cmp(OUle, ex.st.Const(8, '0'), o), ex.st.Cmp(OUle, o, ex.st.Const(8, '9')))
+				hi := ex.st.And(ex.st.Cmp(OUle, ex.st.Const(8, 'a'), o), ex.st.Cmp(OUle, o, ex.st.Const(8, 'f')))
+				ex.assume(ex.st.Or(lo, hi))
+			}
+		}
+		eqAll := func(x, y []*Term) *Term {
+			if len(x) != len(y) {
+				return ex.st.F
+			}
+			r := ex.st.T
+			for i := range x {
+				r = ex.st.And(r, ex.st.Eq(x[i], y[i]))
+			}
+			return r
+		}
+		for _, p := range ex.md5Seen {
+			if concrete && p.concrete {
+				continue
+			}
+			ein, eout := eqAll(bs, p.in), eqAll(out, p.out)
+			ex.assume(ex.st.Or(ex.st.And(ein, eout), ex.st.And(ex.st.Not(ein), ex.st.Not(eout))))
+		}
+		ex.md5Seen = append(ex.md5Seen, md5Entry{in: append([]*Term{}, bs...), out: out, concrete: concrete})
+		return Str{B: out}
 	}
 	m["(*github.com/q191201771/lal/pkg/gb28181.PubSession).Listen"] = func(ex *Exec, fn *ssa.Function, a []Value) Value {
 		// network stub: binding the port succeeds (native replay binds a real UDP port)
@@ -504,19 +532,88 @@ func (ex *Exec) mkError(msg Value) Value {
 // sprintf formats with concrete arguments where possible; symbolic arguments render as "<sym>".
 func (ex *Exec) sprintf(format Value, argv Value) Value {
 	var args []interface{}
+	// symbolic strings / byte slices are formatted exactly: each is replaced by a unique marker for the native
+	// formatter and spliced back as its byte terms afterwards (%s and %v; a verb that rewrites the marker, such
+	// as %q or %x, falls back to the placeholder)
+	var spliced [][]*Term
 	if s, ok := argv.(Slice); ok {
 		for k := 0; k < s.Len; k++ {
-			args = append(args, ex.toNative(s.Arr.E[s.Off+k].V))
+			v := s.Arr.E[s.Off+k].V
+			if bs, ok := ex.symbolicText(v); ok {
+				args = append(args, fmt.Sprintf("\x01SYM%d\x02", len(spliced)))
+				spliced = append(spliced, bs)
+				continue
+			}
+			args = append(args, ex.toNative(v))
 		}
 	}
+	var out string
 	if format == nil {
-		return ex.mkStr(fmt.Sprint(args...))
+		out = fmt.Sprint(args...)
+	} else {
+		f, ok := format.(Str).Concrete()
+		if !ok {
+			ex.notePlaceholder("symbolic format string")
+			return ex.mkStr("<symbolic-format>")
+		}
+		out = fmt.Sprintf(f, args...)
 	}
-	f, ok := format.(Str).Concrete()
-	if !ok {
-		return ex.mkStr("<symbolic-format>")
+	if strings.Contains(out, "<sym>") {
+		ex.notePlaceholder("symbolic non-text argument")
 	}
-	return ex.mkStr(fmt.Sprintf(f, args...))
+	if len(spliced) == 0 {
+		return ex.mkStr(out)
+	}
+	var res []*Term
+	for len(out) > 0 {
+		i := strings.Index(out, "\x01SYM")
+		if i < 0 {
+			res = append(res, ex.mkStr(out).B...)
+			break
+		}
+		res = append(res, ex.mkStr(out[:i]).B...)
+		j := strings.IndexByte(out[i:], 2)
+		if j < 0 {
+			ex.notePlaceholder("marker rewritten by the verb")
+			return ex.mkStr("<sym>")
+		}
+		k, err := strconv.Atoi(out[i+4 : i+j])
+		if err != nil || k < 0 || k >= len(spliced) {
+			ex.notePlaceholder("marker rewritten by the verb")
+			return ex.mkStr("<sym>")
+		}
+		res = append(res, spliced[k]...)
+		out = out[i+j+1:]
+	}
+	return Str{B: res}
+}
+
+// symbolicText returns the byte terms of an interface holding a string or []byte with at least one symbolic byte.
+func (ex *Exec) symbolicText(v Value) ([]*Term, bool) {
+	x, ok := v.(Iface)
+	if !ok || x.T == nil {
+		return nil, false
+	}
+	switch t := x.V.(type) {
+	case Str:
+		if _, c := t.Concrete(); !c && isString(x.T) {
+			return t.B, true
+		}
+	}
+	return nil, false
+}
+
+// notePlaceholder records that formatted text contains a placeholder instead of the real characters.
+func (ex *Exec) notePlaceholder(why string) {
+	if ex.Stats.Placeholders == nil {
+		ex.Stats.Placeholders = map[string]int{}
+	}
+	ex.Stats.Placeholders[why+" @"+ex.whereCaller()]++
+}
+
+type md5Entry struct {
+	in, out  []*Term
+	concrete bool
 }
 
 type symPlaceholder struct{}
